@@ -732,6 +732,8 @@ std::shared_ptr<Problem> build_problem(ProblemSpec const& s, BuildOptions const&
 
     prob->core = std::make_shared<CoreParams>(std::move(in));
 
+    prob->locator = load_locator(s.geometry);
+
     if (opts.customize)
         opts.customize(*prob);
 
